@@ -247,6 +247,10 @@ def finish(R):
         suffix = "" if new_viol else " no-failing-input-found"
         print("VIOLATION property=%s replay=%s%s" % (R.pid, replay, suffix))
         exit_code = 1
+    if exit_code == 0:
+        stale = os.path.join(VERIF, "replays", R.pid, "%d-%s.json" % (R.seed, R.tier))
+        if os.path.exists(stale):
+            os.remove(stale)          # a replay file always belongs to the latest run of its tier
     pr = R.proof or {}
     cov = {
         "obligations": pr.get("obligations", 0),
